@@ -179,6 +179,15 @@ Plan generate_plan(const std::string& prop, unsigned long long vseed, unsigned l
     hc.text.mutate_per1024 = r.pick(std::vector<int>{0, 60, 120, 250});
     if (r.chance(thorough ? 20 : 6)) { hc.text.long_mode = true; hc.text.max_len = 2000; }   // a few long inputs (parser recursion depth, int lengths)
     hc.max_ops = thorough ? 12 : 9;
+    // swarm: the operation mix differs from run to run
+    switch (r.range(0, 5)) {
+    case 0: hc.w_normalize = 40; hc.w_addbase = 8; hc.w_removebase = 6; break;                      // normalization-heavy
+    case 1: hc.w_addbase = 40; hc.w_removebase = 8; hc.w_normalize = 10; break;                     // resolution-heavy
+    case 2: hc.w_removebase = 36; hc.w_addbase = 14; hc.w_normalize = 10; break;                    // reference-creation-heavy
+    case 3: hc.w_makeowner = 26; hc.w_normalize = 24; hc.w_parse = 20; break;                       // ownership-heavy
+    case 4: hc.w_parse = 14; hc.w_addbase = 26; hc.w_removebase = 20; hc.w_normalize = 26; hc.w_makeowner = 10; break;   // long chains, few fresh parses
+    default: break;                                                                                  // balanced
+    }
     if (prop == "C14") {
         int k = r.range(0, 9);
         p.mgrs = {k < 4 ? MK_SIM : k < 7 ? MK_COMPLETED : MK_LIBC}; p.mgr_mask = {0};
